@@ -61,9 +61,14 @@ impl Qcow2IoTokio {
         let mut file = self.file.lock().await;
 
         file.seek(SeekFrom::Start(offset)).await?;
-        let res = file.write(buf).await?;
-
-        assert!(res == buf.len());
+        // a single write() takes at most tokio's internal buffer size
+        // (2 MiB), so loop
+        file.write_all(buf).await?;
+        // write() returns once the data is buffered and handed to the
+        // blocking pool; wait until it has reached the file, otherwise
+        // fallocate() - which works on the raw fd - and other readers of
+        // the file can overtake it
+        file.flush().await?;
 
         Ok(())
     }
